@@ -13,7 +13,7 @@ Hand-written, one C function = one Lean function of the same name (camelCase):
   array_initializer1 / 2     → `arrayInit1` (+ `arrayInit1Loop`) / `arrayInit2` (+ `arrayInit2Loop`)
   struct_initializer1 / 2    → `structInit1` (+ `structInit1Loop`) / `structInit2`
   union_initializer          → `unionInit` (+ its helper `union_rest` → `unionRest`)
-  initializer2               → `initializer2`
+  initializer2               → `initializer2` (the guard of its braced-string branch → `bracedStr`)
   initializer                → `initializer` (`parseInit` = `initializer` with the standard fuel)
   write_gvar_data, read_buf, write_buf, gvar_initializer → `writeGvar…`, `readBuf`, `writeBuf`, `gvarInit`
   create_lvar_init, init_desg_expr, lvar_initializer     → `createLvarInit…`, `Assign.addr`, `lvarInit`
@@ -373,6 +373,24 @@ def firstNamed (ms : Members) : Nat → Nat → Nat
 
 abbrev P := Except Fail (Init × List ITok)
 
+/-- `is_integer(ty) && ty->kind != TY_BOOL` -/
+def Ty.isIntNotBool : Ty → Bool
+  | .scalar _ .int => true
+  | _ => false
+
+/-- the guard of the first branch of `initializer2` for an array whose element type is `elem`, on the tokens after `{`:
+    `is_integer(base) && base->kind != TY_BOOL && tok->next->kind == TK_STR && tok->next->ty->base->size == base->size &&
+    (equal(tok->next->next, "}") || (equal(…, ",") && equal(…->next, "}")))`.  Result: the literal and what follows the
+    closing brace (`consume(&tok, tok, ","); *rest = skip(tok, "}")`) -/
+def bracedStr (elem : Ty) : List ITok → Option (Nat × List Nat × Nat × List ITok)
+  | .str id bytes esz :: r =>
+    if elem.isIntNotBool && elem.size == (esz : Int) then
+      match consumeEnd r with
+      | some rest => some (id, bytes, esz, rest)
+      | none => none
+    else none
+  | _ => none
+
 /-! ## The mutually recursive parser (fuel = one unit per C call or loop iteration) -/
 
 mutual
@@ -639,7 +657,11 @@ mutual
         | .str _ bytes esz :: r =>
           if elem.isInteger then stringInitializer elem bytes esz r init
           else arrayInit2 f elem toks init 0
-        | .lbrace :: _ => arrayInit1 f elem toks init
+        | .lbrace :: r =>
+          -- C11 6.7.9p14-15: `{ "abc" }` / `{ "abc", }` for an array of character type (the first branch in C)
+          match bracedStr elem r with
+          | some (_, bytes, esz, rest) => stringInitializer elem bytes esz rest init
+          | none => arrayInit1 f elem toks init
         | _ => arrayInit2 f elem toks init 0
       | .struct ms _ _ =>
         if startsBrace toks then structInit1 f ms toks init
